@@ -61,8 +61,31 @@ func (c *c27Contract) clone() *c27Contract {
 }
 
 // the seven field types of the grammar, and the wider set a field may be retyped to
-var c27BaseTypes = []string{"Int", "String", "Int?", "[Int]", "{I}", "En", "T"}
-var c27RetypeTargets = []string{"Int", "String", "Int?", "String?", "[Int]", "[String]", "{I}", "{J}", "En", "T"}
+// Cap* are capability-typed fields whose borrow type carries an authorization:
+// CapI auth(Insert), CapIR auth(Insert, Remove), CapRI the same set written in the other order,
+// CapIoR auth(Insert | Remove), CapR auth(Remove), CapU unauthorized; all `Capability<... &[Int]>?`,
+// and [CapI] / [CapIR] arrays of the non-optional capability.
+var c27BaseTypes = []string{"Int", "String", "Int?", "[Int]", "{I}", "En", "T", "CapI", "CapIR", "CapIoR", "[CapI]"}
+var c27RetypeTargets = []string{"Int", "String", "Int?", "String?", "[Int]", "[String]", "{I}", "{J}", "En", "T",
+	"CapI", "CapIR", "CapRI", "CapIoR", "CapR", "CapU", "[CapIR]"}
+
+var c27CapAuth = map[string]string{
+	"CapI": "auth(Insert) ", "CapIR": "auth(Insert, Remove) ", "CapRI": "auth(Remove, Insert) ",
+	"CapIoR": "auth(Insert | Remove) ", "CapR": "auth(Remove) ", "CapU": "",
+}
+
+// c27CapType renders a Cap* grammar type; ok=false for the other types.
+func c27CapType(t string) (src string, ok bool) {
+	if a, ok := c27CapAuth[t]; ok {
+		return "Capability<" + a + "&[Int]>?", true
+	}
+	if strings.HasPrefix(t, "[Cap") {
+		if a, ok := c27CapAuth[t[1:len(t)-1]]; ok {
+			return "[Capability<" + a + "&[Int]>]", true
+		}
+	}
+	return "", false
+}
 
 func c27Old(t0, t1 string) *c27Contract {
 	return &c27Contract{
@@ -77,6 +100,9 @@ func c27Old(t0, t1 string) *c27Contract {
 func (c *c27Contract) typeName(t string) string {
 	if t == "T" {
 		return c.TName
+	}
+	if ct, ok := c27CapType(t); ok {
+		return ct
 	}
 	return t
 }
@@ -97,6 +123,12 @@ func (c *c27Contract) valueExpr(t string) string {
 		return "En.b"
 	case "T":
 		return c.TName + "()"
+	}
+	if _, ok := c27CapAuth[t]; ok {
+		return "C.mk" + t + "()"
+	}
+	if strings.HasPrefix(t, "[Cap") {
+		return "[C.mk" + t[1:len(t)-1] + "()]"
 	}
 	panic("c27: type " + t)
 }
@@ -161,6 +193,11 @@ func (c *c27Contract) source() string {
 	for _, e := range c.Extra {
 		sb.WriteString("    " + e + "\n")
 	}
+	// issuers of the capability values stored in Cap* fields (same in every version)
+	for _, k := range []string{"CapI", "CapIR", "CapRI", "CapIoR", "CapR", "CapU"} {
+		a := c27CapAuth[k]
+		fmt.Fprintf(&sb, "    access(all) fun mk%s(): Capability<%s&[Int]> { return self.account.capabilities.storage.issue<%s&[Int]>(/storage/ints) }\n", k, a, a)
+	}
 	sb.WriteString("}\n")
 	return sb.String()
 }
@@ -197,14 +234,14 @@ func c27Mutations(old *c27Contract, thorough bool) []c27Mut {
 		})
 		targets := c27RetypeTargets
 		if i == 1 && !thorough {
-			targets = []string{"Int", "String?", "[String]", "{J}"}
+			targets = []string{"Int", "String?", "[String]", "{J}", "CapIR", "CapIoR", "CapU"}
 		}
 		for _, nt := range targets {
 			nt := nt
 			if old.SFields[i].Type == nt {
 				continue
 			}
-			add("field-retype:"+name+":"+nt, fmt.Sprintf("field-retype(%s->%s)", old.SFields[i].Type, nt), "S."+name, func(c *c27Contract) bool {
+			add("field-retype:"+name+":"+nt, c27RetypeClass(old.SFields[i].Type, nt), "S."+name, func(c *c27Contract) bool {
 				for k, f := range c.SFields {
 					if f.Name == name {
 						c.SFields[k].Type = nt
@@ -272,6 +309,42 @@ func c27Mutations(old *c27Contract, thorough bool) []c27Mut {
 	return ms
 }
 
+// c27RetypeClass names a field retype; between two capability types it names the authorization edit.
+func c27RetypeClass(from, to string) string {
+	base := fmt.Sprintf("field-retype(%s->%s)", from, to)
+	strip := func(t string) (string, bool) {
+		arr := strings.HasPrefix(t, "[")
+		if arr {
+			t = t[1 : len(t)-1]
+		}
+		_, ok := c27CapAuth[t]
+		return t, ok && !arr || ok
+	}
+	f, ok1 := strip(from)
+	t, ok2 := strip(to)
+	if !ok1 || !ok2 || strings.HasPrefix(from, "[") != strings.HasPrefix(to, "[") {
+		return base
+	}
+	edit := map[[2]string]string{
+		{"CapI", "CapIR"}: "entitlement-added", {"CapI", "CapRI"}: "entitlement-added", {"CapR", "CapIR"}: "entitlement-added",
+		{"CapIR", "CapI"}: "entitlement-removed", {"CapIR", "CapR"}: "entitlement-removed", {"CapRI", "CapI"}: "entitlement-removed",
+		{"CapI", "CapR"}: "entitlement-replaced", {"CapR", "CapI"}: "entitlement-replaced",
+		{"CapIR", "CapRI"}: "entitlements-reordered", {"CapRI", "CapIR"}: "entitlements-reordered",
+		{"CapIR", "CapIoR"}: "conjunction->disjunction", {"CapIoR", "CapIR"}: "disjunction->conjunction", {"CapIoR", "CapRI"}: "disjunction->conjunction",
+		{"CapI", "CapIoR"}: "single->disjunction", {"CapIoR", "CapI"}: "disjunction->single", {"CapIoR", "CapR"}: "disjunction->single",
+	}[[2]string{f, t}]
+	switch {
+	case edit != "":
+	case t == "CapU":
+		edit = "authorization-dropped"
+	case f == "CapU":
+		edit = "authorization-added"
+	default:
+		return base
+	}
+	return "field-retype(capability:" + edit + ")"
+}
+
 func without(xs []string, x string) []string {
 	var out []string
 	for _, y := range xs {
@@ -287,6 +360,7 @@ func without(xs []string, x string) []string {
 const c27Setup = `import C from 0x1
 transaction {
     prepare(s: auth(Storage) &Account) {
+        s.storage.save([1, 2], to: /storage/ints)
         s.storage.save(C.mkS(), to: /storage/s)
         s.storage.save(<- C.mkR(), to: /storage/r)
         s.storage.save(C.En.b, to: /storage/e)
@@ -349,6 +423,23 @@ func c27Use(c *c27Contract, e, t string) string {
 	case "T":
 		return "let u = " + c27UseT(c, e+".n")
 	}
+	// capability-typed: borrow at the declared type and use the reference at the declared authorization
+	k, sel := t, e+"!"
+	if strings.HasPrefix(t, "[Cap") {
+		k, sel = t[1:len(t)-1], e+"[0]"
+	}
+	if _, ok := c27CapAuth[k]; ok {
+		use := "let u = r.length"
+		switch k {
+		case "CapI":
+			use = "r.append(7)"
+		case "CapIR", "CapRI":
+			use = "r.append(7); let u = r.removeLast()"
+		case "CapR":
+			use = "let u = r.removeLast()"
+		}
+		return fmt.Sprintf("let r = %s.borrow()!; %s", sel, use)
+	}
 	panic("c27: use " + t)
 }
 
@@ -369,6 +460,9 @@ func c27Qual(c *c27Contract, t string) string {
 		return "C.En"
 	case "T":
 		return "C." + c.TName
+	}
+	if ct, ok := c27CapType(t); ok {
+		return ct
 	}
 	return t
 }
@@ -655,8 +749,8 @@ func replayC27(env *mc.Env, raw json.RawMessage) (bool, string) {
 func init() {
 	mc.Register(&mc.Check{
 		ID: "C27",
-		Rule: "old contract = struct S: I with fields (f0, f1) over {Int, String, Int?, [Int], {I}, En, T} (quick: each type once per position, thorough: all 49), nested struct T, resource R, enum En{a,b,c}, interfaces I, J, struct S2: I, J; " +
-			"x every single and every unordered pair of ~40 mutations (field add/remove/retype to 10 types/reorder, nested add/remove/rename/field retype, conformance add/remove, enum case add/remove/reorder/raw type, struct<->resource, #removedType); " +
+		Rule: "old contract = struct S: I with fields (f0, f1) over {Int, String, Int?, [Int], {I}, En, T, Capability<auth(Insert) &[Int]>?, Capability<auth(Insert, Remove) &[Int]>?, Capability<auth(Insert | Remove) &[Int]>?, [Capability<auth(Insert) &[Int]>]} (quick: each type once per position, thorough: all 121), nested struct T, resource R, enum En{a,b,c}, interfaces I, J, struct S2: I, J; " +
+			"x every single and every unordered pair of ~40 mutations (field add/remove/retype to 17 types incl. authorization edits of capability-typed fields (entitlement added / removed / replaced / reordered, conjunction<->disjunction, dropped)/reorder, nested add/remove/rename/field retype, conformance add/remove, enum case add/remove/reorder/raw type, struct<->resource, #removedType); " +
 			"values of every kind stored under the old version, update executed on the real runtime; if accepted, four probe scripts in a fresh runtime (load all, typed field reads, enum identity, conformance casts) must succeed; both engines. non-trivial = distinct accepted mutation-class sets",
 		Assumptions: []string{
 			"values of a type named in an accepted #removedType pragma are excused from the load probe",
